@@ -24,6 +24,10 @@ ALIAS1 = {
     'values', 'values_mut', 'keys', 'last_mut', 'from_mut', 'from_ref', 'branch', 'from_residual',
     'ok', 'as_any', 'as_any_mut',
 }
+# alias methods that select part of a sequence
+INDEXING = {'index', 'index_mut', 'get', 'get_mut', 'get_unchecked', 'get_unchecked_mut', 'first', 'last',
+            'first_mut', 'last_mut', 'split_at', 'split_at_mut', 'split_first', 'split_last',
+            'split_first_mut', 'split_last_mut', 'next', 'chunks', 'chunks_mut', 'windows', 'nth'}
 # results alias all arguments
 ALIASN = {'zip', 'multizip', 'chain', 'new__never'}
 
@@ -183,7 +187,10 @@ class Effects:
                     return out
                 return [(('fresh', key), ())]
             if nm in ALIAS1 and args:
-                return self.aps(f, args[0], depth + 1, seen)
+                base = self.aps(f, args[0], depth + 1, seen)
+                if nm in INDEXING:
+                    return [(r, c if (c and c[-1] == IDX) else (c + (IDX,))[:MAXDEPTH]) for r, c in base]
+                return base
             if nm in ALIASN and args:
                 out = []
                 for a in args:
